@@ -160,18 +160,24 @@ _LEAF = None
 
 
 def _stub_item(name, label):
+    """The item the ghost model holds under (container `name`, `label`): one leaf class per container, so
+    that an item of another kind carrying the same label is distinguishable."""
     global _LEAF
     if name == "megacomplex":
         return _rule_classes()["plain"](label=label)
     if _LEAF is None:
+        _LEAF = {}
+    if name not in _LEAF:
         from glotaran.model.item import ModelItem, item
 
-        @item
-        class PyvcLeaf(ModelItem):
-            pass
+        _LEAF[name] = item(type(f"PyvcLeaf_{name}", (ModelItem,), {"__annotations__": {}, "__module__": __name__, "pyvc_container": name}))
+    return _LEAF[name](label=label)
 
-        _LEAF = PyvcLeaf
-    return _LEAF(label=label)
+
+def _container_of(obj):
+    if type(obj) is _rule_classes()["plain"]:
+        return "megacomplex"
+    return getattr(type(obj), "pyvc_container", None)
 
 
 class GhostParameters:
@@ -190,8 +196,9 @@ class GhostParameters:
         return Parameter(label=label.replace(":", "_"), value=1.0)
 
 
-def build_instance(cls, size=2, optional_set=True):
-    """An instance with distinct labels in every declared reference position."""
+def build_instance(cls, size=2, optional_set=True, shared=False):
+    """An instance with distinct labels in every declared reference position (`shared`: items of different
+    kinds carry the same labels - labels are unique per kind only)."""
     from glotaran.model.item import META_ALIAS
 
     kwargs, positions = {}, []
@@ -209,6 +216,8 @@ def build_instance(cls, size=2, optional_set=True):
             continue
         name = f.metadata.get(META_ALIAS, f.name) if kind == "model" else f.name
         labs = [f"{'ref' if kind == 'model' else 'par'}.{f.name}.{i}" for i in range(size if struct else 1)]
+        if shared and kind == "model":
+            labs = [f"shared.{i}" for i in range(size if struct else 1)]
         if struct == "list":
             kwargs[f.name] = list(labs)
         elif struct == "dict":
@@ -257,10 +266,12 @@ class ItemIssues(Contract):
                     if len(pos) > (9 if tier == "quick" else 12):
                         continue
                     yield {"cls": key, "size": size, "optional_set": opt}
+                    if opt and len({n for k, n, _, _ in pos if k == "model"}) > 1:
+                        yield {"cls": key, "size": size, "optional_set": opt, "shared_labels": True}
 
     def build(self, S, case):
         cls = all_item_classes()[case["cls"]]
-        inst, pos = build_instance(cls, case["size"], case["optional_set"])
+        inst, pos = build_instance(cls, case["size"], case["optional_set"], case.get("shared_labels", False))
         facts = Facts(S)
         return {"inst": inst, "pos": pos, "facts": facts, "model": GhostModel(facts, None), "params": GhostParameters(facts)}
 
@@ -308,7 +319,19 @@ class ItemIssues(Contract):
         nm = sorted((i._item_name, i._label) for i in out["no_params"] if isinstance(i, ModelItemIssue))
         yield "without_parameters_only_model_issues", nm == got_model and not any(isinstance(i, ParameterIssue) for i in out["no_params"])
         if not out["issues"]:
-            yield "valid_item_can_be_filled_without_lookup_errors", out["filled"] is not None and not isinstance(out["filled"], Raised)
+            ok = out["filled"] is not None and not isinstance(out["filled"], Raised)
+            yield "valid_item_can_be_filled_without_lookup_errors", ok
+            if ok:
+                # every reference is filled with the item of its own kind and label
+                want, got = {}, {}
+                for kind, name, lab, attr in pos:
+                    if kind == "model":
+                        want.setdefault(attr, []).append((name, lab))
+                for attr in want:
+                    v = getattr(out["filled"], attr)
+                    objs = list(v.values()) if isinstance(v, dict) else list(v) if isinstance(v, (list, tuple)) else [v]
+                    got[attr] = [(_container_of(o), getattr(o, "label", None)) for o in objs]
+                yield "references_are_filled_with_the_item_of_their_own_kind_and_label", got == want
 
 
 class MegacomplexRules(Contract):
